@@ -214,6 +214,11 @@ func runC04(ctx *harness.Ctx) {
 			fn(t, "operand-matrix", entryByName["ParseExpr"], src)
 		})
 	}
+	ctx.Rapid("generated-relaxed", ctx.Pick(4000, 60000), func(t *rapid.T) {
+		c := drawGenRelaxed(t, "", drawDepth(t))
+		es := entriesForKind(c.S.Kind)
+		fn(t, "generated-relaxed", es[rapid.IntRange(0, len(es)-1).Draw(t, "entry")], c.Text)
+	})
 	var names []any
 	for k := range types {
 		names = append(names, k)
